@@ -20,7 +20,9 @@ import (
 	"time"
 
 	"github.com/anishathalye/porcupine"
+	"github.com/projecteru2/core/lock"
 	"github.com/projecteru2/core/lock/etcdlock"
+	redislock "github.com/projecteru2/core/lock/redis"
 	"github.com/projecteru2/core/store/etcdv3/embedded"
 	clientv3 "go.etcd.io/etcd/client/v3"
 
@@ -232,7 +234,9 @@ func judgeLockHistory(rec *vkit.Rec, h *lockHistory) {
 	for _, cs := range h.CS {
 		// a holder that outlived its lease (its context was cancelled, or on redis the wall clock says so) is
 		// outside the property's antecedent: what follows in that history is not judged against the mutex model
-		if cs.CtxDone || (b == "redis" && time.Duration(cs.Exit-cs.Enter) > h.TTL*8/10) {
+		// (a lock context that ends although its holder has had the lock for less than the lease it asked for is no
+		// excuse: the lease was cut short by the lock itself)
+		if held := time.Duration(cs.Exit - cs.Enter); held > h.TTL*8/10 && (cs.CtxDone || b == "redis") {
 			excused = true
 		}
 	}
@@ -243,7 +247,7 @@ func judgeLockHistory(rec *vkit.Rec, h *lockHistory) {
 		p, c := h.CS[i-1], h.CS[i]
 		if c.Enter < p.Exit {
 			held := time.Duration(p.Exit - p.Enter)
-			if p.CtxDone || (b == "redis" && held > h.TTL*8/10) {
+			if held > h.TTL*8/10 && (p.CtxDone || b == "redis") {
 				rec.Count("overlaps_excused_holder_outlived_its_lease/"+b, 1)
 				excused = true
 				continue
@@ -280,7 +284,7 @@ func judgeLockHistory(rec *vkit.Rec, h *lockHistory) {
 		case o.Op == "unlock" && !o.OK:
 			overran := false // did this client's critical section outlive the lease (by the wall clock)?
 			for _, cs := range h.CS {
-				if cs.Client == o.Client && cs.Exit <= o.Call && (cs.CtxDone || time.Duration(cs.Exit-cs.Enter) > h.TTL*8/10) {
+				if cs.Client == o.Client && cs.Exit <= o.Call && time.Duration(cs.Exit-cs.Enter) > h.TTL*8/10 {
 					overran = true
 				}
 			}
@@ -431,7 +435,10 @@ type c19Case struct {
 	TTL       time.Duration `json:"ttl_ns"`
 	HolderOp  string        `json:"holder_op"` // lock | trylock
 	Contender bool          `json:"contender_waiting"`
-	Loss      string        `json:"loss"` // lease-revoked | ttl-elapsed
+	Loss      string        `json:"loss"` // lease-revoked | ttl-elapsed | lease-revoked-during-acquisition
+	// WaitFactor > 0 (redis): the lock objects are made by lock/redis.New directly with a wait timeout of WaitFactor x ttl
+	// (store.CreateLock always passes wait timeout = ttl)
+	WaitFactor int `json:"redis_wait_timeout_factor,omitempty"`
 	LatencyMs int64         `json:"latency_ms,omitempty"`
 }
 
@@ -484,7 +491,13 @@ func TestC19(t *testing.T) {
 	run := func(c *c19Case, key string) {
 		st := s.backend(c.Backend)
 		bound := 2 * c.TTL // the property's bound is one keepalive interval (ttl/3); only > 6 intervals is called a violation
-		a, err := st.CreateLock(key, c.TTL)
+		mk := func() (lock.DistributedLock, error) {
+			if c.Backend == "redis" && c.WaitFactor > 0 {
+				return redislock.New(s.rcli, key, time.Duration(c.WaitFactor)*c.TTL, c.TTL)
+			}
+			return st.CreateLock(key, c.TTL)
+		}
+		a, err := mk()
 		if err != nil {
 			rec.Inconclusive("CreateLock: %v", err)
 			return
@@ -508,7 +521,7 @@ func TestC19(t *testing.T) {
 		acquired := make(chan time.Time, 1)
 		if c.Contender {
 			go func() {
-				b, err := st.CreateLock(key, c.TTL)
+				b, err := mk()
 				if err != nil {
 					return
 				}
@@ -714,12 +727,16 @@ func TestC19(t *testing.T) {
 		rec.Eval()
 		if i%4 == 3 {
 			// redis losses move the shared virtual clock: one at a time, after the parallel etcd cases
-			defer func(c *c19Case, key string) {
+			defer func(c *c19Case, key string, i int) {
 				c.Backend, c.Loss, c.TTL = "redis", "ttl-elapsed", 2*time.Second
+				if i%8 == 7 {
+					c.WaitFactor = 4
+					rec.Count("redis_locks_with_wait_timeout_4x_ttl", 1)
+				}
 				mu.Lock()
 				run(c, key)
 				mu.Unlock()
-			}(c, key)
+			}(c, key, i)
 			continue
 		}
 		wg.Add(1)
